@@ -41,7 +41,7 @@ TIERS = {
 PROBES = ["pending_then_resolved", "premature_use", "other_module_used_first", "cyclic_program", "same_target_twice", "future_annotations",
           "whole_quoted", "local_class", "schema_generated", "constrained_ref", "self_spelling", "acyclic_direct_twin",
           "local_name_collides_with_module", "same_target_three_times", "function_partially_resolvable", "generator_types_by_reference",
-          "subclass_used", "property_output_by_reference"]
+          "subclass_used", "property_output_by_reference", "local_sibling_reference"]
 
 CONTAINERS = ["opt", "list", "dict", "union", "req"]
 
@@ -81,6 +81,14 @@ def class_source(prog, ci, S, direct=False):
         L.append(f"    __options__ = Options(addition={ann(c['addn']['cont'], tq if direct else repr(tq), not direct)})")
     # required fields first is not needed for data classes
     L.append("    v: int = 0")
+    if prog.get("kinds"):
+        L.append(f"    kind: Literal['c{ci}'] = 'c{ci}'")
+    if c.get("disc"):
+        # a union over two other classes, told apart by their constant field
+        a_, b_ = f"C{c['disc']['a']}{S}", f"C{c['disc']['b']}{S}"
+        sp = "direct" if direct else c["disc"]["spell"]
+        t_ = f"Union[{a_}, {b_}]" if sp in ("direct", "future") else repr(f"Union[{a_}, {b_}]") if sp == "whole" else f"Union[{a_!r}, {b_!r}]"
+        L.append(f"    dsc: {t_} = Field(discriminator='kind', default=None)")
     for fi, r in enumerate(c["refs"]):
         tgt = f"C{r['to']}{S}"
         sp = "direct" if direct else r["spell"]
@@ -111,7 +119,7 @@ def class_source(prog, ci, S, direct=False):
 
 
 HEADER = ("from utype import Schema, DataClass, Field, Options, Rule\nimport utype\n"
-          "from typing import List, Dict, Optional, Union, Iterator, Generator\nfrom utype.utils.compat import Self\n")
+          "from typing import List, Dict, Optional, Union, Iterator, Generator, Literal\nfrom utype.utils.compat import Self\n")
 
 
 def alias_source(S):
@@ -157,11 +165,15 @@ def fnr_source(prog, S, direct=False):
     return f"@utype.parse(ignore_params=True)\ndef fnr{S}(k=7) -> {q}:\n    return {{'v': k}}\n"
 
 
-def local_source(S, cont2, collide=False):
+def local_source(S, cont2, collide=False, sibling=None):
     # collide: the module namespace already binds an unrelated class under the local class's name
+    # sibling: a second class local to the same function, named by the first one ('before' / 'after' it in the body)
     pre = "class Loc(Schema):\n    v: str = 'module-level'\n    zzz: int = 0\n\n" if collide else ""
-    return (pre + f"def make{S}():\n    class Loc(Schema):\n        v: int = 0\n        r0: Optional['Loc'] = None\n"
-            f"        r1: {ann(cont2, repr('Loc'), True)}{default_for(cont2)}\n    return Loc\n")
+    leaf = "    class Leaf(Schema):\n        v: int = 0\n"
+    return (pre + f"def make{S}():\n" + (leaf if sibling == "before" else "") +
+            f"    class Loc(Schema):\n        v: int = 0\n        r0: Optional['Loc'] = None\n"
+            f"        r1: {ann(cont2, repr('Loc'), True)}{default_for(cont2)}\n" +
+            ("        r2: Optional['Leaf'] = None\n" if sibling else "") + (leaf if sibling == "after" else "") + "    return Loc\n")
 
 
 def other_module_source(prog, S):
@@ -201,6 +213,19 @@ def model_class(prog, ci, data, depth=0):
     c = prog["classes"][ci]
     out = []
     out.append(["v", _to_int(data.get("v", 0))])
+    if prog.get("kinds"):
+        if data.get("kind", f"c{ci}") != f"c{ci}":
+            raise Reject()
+        out.append(["kind", f"c{ci}"])
+    if c.get("disc"):
+        x = data.get("dsc")
+        if x is None:
+            out.append(["dsc", None])
+        else:
+            which = {f"c{c['disc']['a']}": c["disc"]["a"], f"c{c['disc']['b']}": c["disc"]["b"]}
+            if not isinstance(x, dict) or x.get("kind") not in which:
+                raise Reject()
+            out.append(["dsc", model_class(prog, which[x["kind"]], x, depth + 1)])
     for fi, r in enumerate(c["refs"]):
         key = f"r{fi}"
         cont = r["cont"]
@@ -345,6 +370,11 @@ def gen_input(rng, prog, ci, depth, bad):
                 x = sub()
                 x.setdefault("v", 1)    # an empty mapping is also a spelling of 0 for the int branch: keep the branches apart
                 d[key] = x
+    if c.get("disc") and depth < 3 and rng.random() < 0.7:
+        t_ = rng.choice([c["disc"]["a"], c["disc"]["b"]])
+        x = dict(gen_input(rng, prog, t_, depth + 2, bad))
+        x["kind"] = f"c{t_}" if rng.random() < 0.9 else "zz"
+        d["dsc"] = x
     if c.get("addn") and depth < 3:
         for j in range(rng.choice([0, 1, 1, 2])):
             one = lambda: dict(gen_input(rng, prog, c["addn"]["to"], depth + 2, bad))  # noqa
@@ -363,6 +393,7 @@ def is_cyclic(prog):
     n = len(prog["classes"])
     adj = {i: {r["to"] for r in prog["classes"][i]["refs"]} | ({prog["classes"][i]["pprop"]} if prog["classes"][i].get("pprop") is not None else set())
            | ({prog["classes"][i]["addn"]["to"]} if prog["classes"][i].get("addn") else set())
+           | ({prog["classes"][i]["disc"]["a"], prog["classes"][i]["disc"]["b"]} if prog["classes"][i].get("disc") else set())
            for i in range(n)}
     seen, stack = set(), set()
 
@@ -391,6 +422,9 @@ def topo(prog):
             visit(prog["classes"][u]["pprop"])
         if prog["classes"][u].get("addn"):
             visit(prog["classes"][u]["addn"]["to"])
+        if prog["classes"][u].get("disc"):
+            visit(prog["classes"][u]["disc"]["a"])
+            visit(prog["classes"][u]["disc"]["b"])
         order.append(u)
     for i in range(n):
         visit(i)
@@ -403,6 +437,10 @@ def generate(rng, tier):
         plan = {"prop": ID, "kind": "local", "cont2": rng.choice(["list", "dict", "opt", "union"]),
                 "collide": rng.random() < 0.4, "events": []}
         prog = {"classes": [{"refs": [{"to": 0, "cont": "opt", "spell": "str"}, {"to": 0, "cont": plan["cont2"], "spell": "str"}]}]}
+        if rng.random() < 0.3:
+            plan["sibling"] = rng.choice(["before", "after"])
+            prog["classes"][0]["refs"].append({"to": 1, "cont": "opt", "spell": "str"})
+            prog["classes"].append({"refs": []})
         plan["prog"] = prog
         ev = []
         for _ in range(rng.choice([2, 3, 4])):
@@ -477,6 +515,13 @@ def generate(rng, tier):
     for ci in range(n):
         if classes[ci]["base"] == "schema" and no_req and rng.random() < 0.2 and not future:
             classes[ci]["pprop"] = rng.choice(no_req)
+    if n == 3 and rng.random() < 0.2:
+        # one class holds a union of the two others chosen by a discriminator: the classes carry a constant field
+        ci = 0 if dag else rng.randrange(n)
+        a_, b_ = [x for x in range(n) if x != ci]
+        if a_ in no_req and b_ in no_req:
+            prog["kinds"] = True
+            classes[ci]["disc"] = {"a": a_, "b": b_, "spell": "future" if future else rng.choice(["str", "str", "whole"])}
     plan = {"prop": ID, "kind": "module", "prog": prog, "order": order}
     # events: defines in `order` (alias and function somewhere), uses interleaved
     ev = [{"ev": "define", "cls": c} for c in order]
@@ -559,6 +604,9 @@ def _needs(prog, ci, seen=None):
         _needs(prog, prog["classes"][ci]["pprop"], seen)
     if prog["classes"][ci].get("addn"):
         _needs(prog, prog["classes"][ci]["addn"]["to"], seen)
+    if prog["classes"][ci].get("disc"):
+        _needs(prog, prog["classes"][ci]["disc"]["a"], seen)
+        _needs(prog, prog["classes"][ci]["disc"]["b"], seen)
     return seen
 
 
@@ -639,7 +687,9 @@ def execute(plan):
     prog = plan["prog"]
     S = "__" + kernel.new_suffix()
     if plan["kind"] == "local":
-        mod = kernel.make_module("verif_c17_loc_" + S.strip("_"), HEADER + local_source(S, plan["cont2"], plan.get("collide")))
+        mod = kernel.make_module("verif_c17_loc_" + S.strip("_"), HEADER + local_source(S, plan["cont2"], plan.get("collide"), plan.get("sibling")))
+        if plan.get("sibling"):
+            res.stats["probe:local_sibling_reference"] += 1
         if plan.get("collide"):
             res.stats["probe:local_name_collides_with_module"] += 1
         res.stats["probe:local_class"] += 1
@@ -655,12 +705,19 @@ def execute(plan):
             mk = getattr(mod, "make" + S)
             got = _outcome(lambda: mk().__from__(copy.deepcopy(e["data"])))
             try:
-                want = ["ok", kernel.canon_mapping_unordered(_relabel(model_class(prog, 0, e["data"]), "schema:Loc"))]
+                if plan.get("sibling"):
+                    m = json.loads(json.dumps(model_class(prog, 0, e["data"])).replace('"schema:C0"', '"schema:Loc"').replace('"schema:C1"', '"schema:Leaf"'))
+                else:
+                    m = _relabel(model_class(prog, 0, e["data"]), "schema:Loc")
+                want = ["ok", kernel.canon_mapping_unordered(m)]
             except Reject:
                 want = ["exc", "ParseError"]
             res.ev(n, "use_local", got)
             if got != want:
-                res.violate(f"C17|local|{plan['cont2']}|{_kind(got, want)}",
+                kd = _kind(got, want)
+                if plan.get("sibling") and got[:2] == ["exc", "NameError"]:
+                    kd = "NameError"      # (one fingerprint whatever the input: the first parse fails before it looks at it)
+                res.violate(f"C17|local|{'sibling_' + plan['sibling'] if plan.get('sibling') else plan['cont2']}|{kd}",
                             f"event #{n} use of the function-local class with {e['data']} gave {kernel.jdump(got)[:200]}, expected {kernel.jdump(want)[:200]}")
                 break
             res.nontrivial = True
@@ -714,12 +771,18 @@ def execute(plan):
             if any(r["to"] not in defined and r["spell"] != "direct" for r in c["refs"]) or (c.get("lim") and not alias_defined):
                 pending_seen = True
             src = class_source(prog, ci, S)
-            if prog.get("future"):
-                # postponed evaluation is a property of the compilation unit: compile this piece with the flag
-                code = compile(future_hdr + src, f"<{mod.__name__}>", "exec")
-                exec(code, mod.__dict__)
-            else:
-                kernel.exec_into(mod, src)
+            try:
+                if prog.get("future"):
+                    # postponed evaluation is a property of the compilation unit: compile this piece with the flag
+                    code = compile(future_hdr + src, f"<{mod.__name__}>", "exec")
+                    exec(code, mod.__dict__)
+                else:
+                    kernel.exec_into(mod, src)
+            except Exception as e:  # noqa
+                # the same declaration written with direct references (classes in dependency order) is accepted
+                res.violate(f"C17|module|define|declaration_rejected:{type(e).__name__}",
+                            f"event #{n}: declaring class C{ci} failed with {type(e).__name__}: {kernel.clean_text(e, 160)}; source:\n{kernel._SUFFIX.sub('', src)}")
+                break
             defined.add(ci)
             res.ev(n, "define", ci)
         elif k == "define_alias":
